@@ -329,3 +329,65 @@ class Outcome:
         }
         os.makedirs(os.path.join(VERIF, "evidence"), exist_ok=True)
         json.dump(ev, open(os.path.join(VERIF, "evidence", "%s.json" % self.pid), "w"), indent=1, default=str)
+
+
+# ---------- conditioning: is a float disagreement just amplified rounding noise? ----------
+def impl_floats(cb, impl):
+    """all floats of the solve / named / info results of one case, in a fixed order"""
+    from .common import b2f
+    out = []
+    for kind, o in zip(cb.kinds, impl.get("ops", [])):
+        if not isinstance(o, dict) or "ok" not in o:
+            out.append(("status", str(sorted(o.keys())) if isinstance(o, dict) else str(o)))
+            continue
+        k = kind[:-5] if kind.endswith("_long") else kind
+        if k in ("solve", "info", "distance"):
+            out += [b2f(x) for x in o["ok"][:5]]
+        elif k == "named":
+            for pl in o["ok"]:
+                for it in sorted(pl["items"], key=lambda it: it[1]):
+                    out.append(("name", it[1], tuple(a for a, _ in it[3])))
+                    out += [b2f(p) for _, p in it[3]]
+    return out
+
+
+def ill_conditioned(cb, impl, rel, name="cond", trials=4, eps=1e-13):
+    """Re-run the implementation on copies of the case whose payoffs are perturbed by a relative 1e-13.
+    If the implementation's own results move by more than rel/10 the case amplifies rounding noise by
+    more than the comparison tolerance can absorb: a model/implementation difference there says nothing."""
+    import copy
+    import random
+    from .common import b2f, f2b, close
+    from . import harness as H
+    base = impl_floats(cb, impl)
+    rng = random.Random(12345)
+    cases = []
+    for k in range(trials):
+        c = copy.deepcopy(cb.case())
+        c["id"] = k
+
+        def go(n):
+            if "t" in n:
+                x = b2f(n["t"])
+                if x == x and abs(x) != float("inf"):
+                    n["t"] = f2b(x * (1.0 + eps * rng.choice([-1, 1]) * rng.random()))
+            elif "o" in n:
+                for _, ch in n["o"]:
+                    go(ch)
+            else:
+                for _, ch in n["a"]:
+                    go(ch)
+        go(c["tree"])
+        cases.append(c)
+    res = H.run_cases(name, cases)
+    for k in range(trials):
+        other = impl_floats(cb, res.get(k, {}))
+        if len(other) != len(base):
+            return True
+        for a, b in zip(base, other):
+            if isinstance(a, tuple) or isinstance(b, tuple):
+                if a != b:
+                    return True     # even the support changes
+            elif not close(a, b, rel / 10):
+                return True
+    return False
